@@ -418,7 +418,7 @@ pub fn gen_doc_path(r: &mut Rng, v: &Value) -> String {
                 _ => match cur {
                     Value::Array(a) => {
                         let n = a.len() as i64;
-                        let one = |r: &mut Rng| -> String { match r.below(6) { 0 => "last".into(), 1 => format!("last-{}", r.below(3)), 2 => format!("last+{}", r.below(2)), 3 => format!("{}", r.range(-1, n + 1)), 4 => format!("{} to {}", r.range(-1, n), r.range(0, n + 1)), _ => format!("{} to last", r.range(0, n.max(1))) } };
+                        let one = |r: &mut Rng| -> String { match r.below(8) { 6 => format!("{} to {}", -1 - r.below(3) as i64, r.range(0, n + 1)), 7 => format!("last-{} to {}", n + r.below(3) as i64, *r.pick(&["last", "0", "1"])), 0 => "last".into(), 1 => format!("last-{}", r.below(3)), 2 => format!("last+{}", r.below(2)), 3 => format!("{}", r.range(-1, n + 1)), 4 => format!("{} to {}", r.range(-1, n), r.range(0, n + 1)), _ => format!("{} to last", r.range(0, n.max(1))) } };
                         let k = 1 + r.below(2);
                         let idx: Vec<String> = (0..k).map(|_| one(r)).collect();
                         t.push_str(&format!("[{}]", idx.join(", ")));
